@@ -2,6 +2,7 @@ package main
 
 import (
 	"fmt"
+	"go/types"
 	"os"
 )
 
@@ -28,6 +29,34 @@ func main() {
 			os.Exit(2)
 		}
 		dumpSSA(w, repoMod+"/"+os.Args[2], os.Args[3])
+	case "surface":
+		w, err := loadWorld([]string{"internal/executor/contracts", "internal/executor", "pkg/vm/boltvm"}, nil)
+		if err != nil {
+			fmt.Fprintln(os.Stderr, err)
+			os.Exit(2)
+		}
+		db, err := loadSpecs(w, "/verif/trusted", nil)
+		if err != nil {
+			fmt.Fprintln(os.Stderr, err)
+			os.Exit(2)
+		}
+		e := newEngine(w, db)
+		ms, err := e.enumerateSurface()
+		if err != nil {
+			fmt.Fprintln(os.Stderr, err)
+			os.Exit(2)
+		}
+		for _, m := range ms {
+			if !m.Callable || !m.Dispatch {
+				continue
+			}
+			p := w.Fset.Position(m.Fn.Pos())
+			acc := ""
+			if c := db.Contracts["contracts.(*"+m.T.Obj().Name()+")."+m.Name]; c != nil {
+				acc = c.Access
+			}
+			fmt.Printf("%s\t%s\tpromoted=%v\t%s:%d\t%s\t[%s]\n", m.T.Obj().Name(), m.Name, m.Promoted, p.Filename, p.Line, m.Fn.Type().(*types.Signature).Params(), acc)
+		}
 	case "mutants":
 		os.Exit(cmdMutants(os.Args[2:]))
 	case "check":
